@@ -879,7 +879,7 @@ class _Gen:
                 "lazy_ts": self.ntrig == 1 and rng.random() < 0.6}
 
 
-def _burst_case(rng, size, mode=None, long_tokens=False):
+def _burst_case(rng, size, mode=None, long_tokens=False, exact=False):
     """one multi-kilobyte burst of multi-byte characters and escape sequences; with long_tokens mostly the LONGEST
     table sequences (6-7 bytes), so that some straddle every 1024-byte read boundary with most of their bytes on
     the near side"""
@@ -897,6 +897,10 @@ def _burst_case(rng, size, mode=None, long_tokens=False):
             t = [rng.choice(LONG_KEYS) for _ in range(4)]
         else:
             t = _stream(rng, "utf-8", 8, toks[-1][-1] if toks else g.last)
+        if exact and n + sum(len(x) for x in t) > size:
+            # exactly `size` bytes pending in one piece (a whole number of READ_SIZE reads): fill up with letters
+            toks += [b"x"] * (size - n)
+            break
         toks += t
         n += sum(len(x) for x in t)
     data = b"".join(toks)
@@ -981,6 +985,9 @@ def _generate(rng, tier):
     sizes = [300, 1100, 2500, 5000, 8192] * (6 if tier == "thorough" else 1)
     for size in sizes:
         yield _burst_case(rng, size)
+    # bursts of exactly k * 1024 bytes: the reads of one request end exactly at the end of what is pending
+    for size in [1024, 2048, 3072] * (3 if tier == "thorough" else 1):
+        yield _burst_case(rng, size, exact=True)
     # the same under every naming mode, made mostly of the longest sequences of either table
     for mode in ["bytes", "curtsies", "curses"]:
         for size in ([2500, 5000, 5000, 8192] if tier != "thorough" else [1100, 2500, 5000, 8192, 5000] * 3):
